@@ -264,7 +264,19 @@ impl<'a> GExec<'a> {
 
     pub fn resolve_msg(&self, m: &MsgSpec) -> (MMsg, Vec<u8>) {
         let (chain, id) = IDS[m.id as usize % IDS.len()];
-        let payload = self.payload(m.payload);
+        // payload code 250: bytes crafted from the system's own data — the XDR of the message that is
+        // currently approved under this (chain, id), so that keccak(payload) is that approval's commitment
+        let payload = if m.payload == 250 {
+            self.gws
+                .iter()
+                .find_map(|gw| match gw.m.status.get(&(chain.to_string(), id.to_string())) {
+                    Some(MsgStatus::Approved(x)) => Some(xdr_of(&x.to_scval())),
+                    _ => None,
+                })
+                .unwrap_or_else(|| self.payload(0))
+        } else {
+            self.payload(m.payload)
+        };
         (
             MMsg {
                 source_chain: chain.to_string(),
